@@ -111,6 +111,16 @@ MidMotif(G, i)   == Frac0(Mat3(G, i, 0, 1, 0), G.ki[i] * G.ko[i] - BilDeg(G, i))
 InMotif(G, i)    == Frac0(Mat3(G, i, 1, 0, 0), G.ki[i] * (G.ki[i] - 1))
 OutMotif(G, i)   == Frac0(Mat3(G, i, 0, 0, 1), G.ko[i] * (G.ko[i] - 1))
 
+\* ---- degree assortativity (Newman 2002), undirected: Pearson correlation of the degrees at the two ends of
+\* a link; with sums over the m links {s,t}:  r = (4m S_dd - S_+^2) / (2m S_sq - S_+^2),
+\* S_dd = sum d_s d_t, S_+ = sum (d_s + d_t), S_sq = sum (d_s^2 + d_t^2); undefined (0/0) on regular graphs
+LinkSum(G, F(_, _)) == SumN(LAMBDA a : SumN(LAMBDA b : IF a < b /\ G.U[a][b] = 1 THEN F(a, b) ELSE 0, 1, G.n), 1, G.n)
+AssortNum(G) == LET m == LinkSum(G, LAMBDA a, b : 1)  sp == LinkSum(G, LAMBDA a, b : G.ku[a] + G.ku[b])
+                IN 4 * m * LinkSum(G, LAMBDA a, b : G.ku[a] * G.ku[b]) - sp * sp
+AssortDen(G) == LET m == LinkSum(G, LAMBDA a, b : 1)  sp == LinkSum(G, LAMBDA a, b : G.ku[a] + G.ku[b])
+                IN 2 * m * LinkSum(G, LAMBDA a, b : G.ku[a] * G.ku[a] + G.ku[b] * G.ku[b]) - sp * sp
+Assortativity(G) == Q(AssortNum(G), AssortDen(G))
+
 \* ---- link-weighted variants (a link attribute W given as key) ----------------------------
 \* The harness uses weights that are perfect cubes, W[i][j] = R[i][j]^3 on links (0 elsewhere), with the
 \* cube roots R fixed by the node numbers, so that Fagiolo's W^[1/3] is an integer matrix.
